@@ -164,14 +164,12 @@ func (a *Aggregator[VR, GE, S, M]) Aggregate(
 		}
 	}
 
-	var bigR GE
-	if a.IsCosigning() {
-		bigR = a.bigR
-	} else {
-		bigR = iterutils.Reduce(slices.Values(partialSignatures.Values()),
-			a.group.OpIdentity(), func(acc GE, x *lindell22.PartialSignature[GE, S]) GE { return acc.Op(x.Sig.R) },
-		)
-	}
+	// The partial signatures carry the variant-corrected nonce commitments (checked above against the
+	// cosigning state when available), so the aggregate nonce is always their sum; the uncorrected
+	// aggregate kept by a cosigner may differ from it by the variant's parity correction.
+	bigR := iterutils.Reduce(slices.Values(partialSignatures.Values()),
+		a.group.OpIdentity(), func(acc GE, x *lindell22.PartialSignature[GE, S]) GE { return acc.Op(x.Sig.R) },
+	)
 	s := iterutils.Reduce(slices.Values(partialSignatures.Values()),
 		a.sf.Zero(), func(acc S, x *lindell22.PartialSignature[GE, S]) S { return acc.Add(x.Sig.S) },
 	)
